@@ -135,6 +135,20 @@ AnonFacts == <<Fact(w2(Anon, a)), Fact(w2(b, b)), Fact(w2(c, c)), Fact(w2(X, Ato
 NotAnonBodies == {NotG(Call(w2(X, a))), NotG(Call(w2(X, Atom("d")))), NotG(Call(w2(a, X))), NotG(Call(w2(b, a))), NotG(Call(w2(a, a))),
                   AndG(<<Call(q1(X)), NotG(Call(w2(X, a)))>>), AndG(<<Call(r1(X)), NotG(Call(w2(X, Atom("d")))), pr(X)>>),
                   AndG(<<UnifyG(Y, X), NotG(Call(w2(Y, a)))>>), NotG(Call(w2(X, Y)))}
+(* ------------------------------ slice: anon ($_ in the search, C09) ------- *)
+(* heads with $_ against goals with constants, goals with $_ against heads with constants / variables / $_, as query  *)
+(* and in rule bodies, before and after goals that bind; $_ never binds and never blocks                               *)
+AnonFacts2 == AnonFacts \o <<Fact(Cx("likes", <<Anon, Atom("pizza")>>)), Fact(Cx("seen", <<Anon>>)), Fact(Cx("both", <<Anon, Anon>>))>>
+AnonGoals == {Call(w2(b, a)), Call(w2(a, a)), Call(w2(Anon, b)), Call(w2(Anon, Atom("d"))), Call(w2(c, Anon)), Call(w2(Anon, Anon)),
+              Call(s2(Anon, Anon)), Call(s2(a, Anon)), Call(s2(Anon, c)), Call(Cx("likes", <<a, Atom("pizza")>>)), Call(Cx("likes", <<Anon, Atom("pizza")>>)),
+              Call(Cx("likes", <<a, b>>)), Call(Cx("seen", <<a>>)), Call(Cx("seen", <<Anon>>)), Call(Cx("both", <<a, IntT(7)>>)), Call(q1(Anon)),
+              Call(w2(X, Anon)), Call(s2(X, Anon)), Call(Cx("seen", <<X>>))}
+AnonBodies2 == AnonGoals \cup {AndG(<<Call(q1(X)), g>>) : g \in AnonGoals} \cup {AndG(<<g, Call(r1(X))>>) : g \in AnonGoals}
+ProgsAnon ==
+       PQS({BaseFacts \o AnonFacts2 \o <<Clause(p1(X), bd)>> : bd \in AnonBodies2}, {p1(Z), p1(b)})
+  \cup PQ(BaseFacts \o AnonFacts2, {w2(Anon, a), w2(b, Anon), w2(Anon, Anon), s2(a, Anon), s2(Anon, Anon), Cx("likes", <<a, Atom("pizza")>>),
+                                    Cx("likes", <<Anon, Atom("pizza")>>), Cx("seen", <<Anon>>), Cx("both", <<a, b>>), q1(Anon), w2(Z, Anon), w2(Anon, Z)})
+
 ProgsNot ==
        PQS({BaseFacts \o <<Clause(p1(X), bd)>> : bd \in NotBodies}, {p1(Z), p1(a), p1(c)})
   \cup PQS({BaseFacts \o AnonFacts \o <<Clause(p1(X), bd)>> : bd \in NotAnonBodies}, {p1(Z), p1(a), p1(b), p1(c)})
@@ -277,6 +291,7 @@ ProgQueries == CASE Slice = "andor" -> ProgsAndOr
                  [] Slice = "deep"  -> ProgsDeep
                  [] Slice = "lists" -> ProgsLists
                  [] Slice = "alias" -> ProgsAlias
+                 [] Slice = "anon"  -> ProgsAnon
 
 (* ------------------------------ the model ------------------------------- *)
 NoneSeg == [out |-> <<>>, ans |-> <<>>, some |-> FALSE]
